@@ -206,7 +206,7 @@ def stream_sighashes(ctx):
     more = ["Ed25519", "Ed448", "ecdsa_brainpoolP512r1tls13_sha512", "ecdsa_brainpoolP384r1tls13_sha384",
             "ecdsa_brainpoolP256r1tls13_sha256"]
     lines, impls, cases = [], [], []
-    n = ctx.pick(400, 4000)
+    n = ctx.pick(400, 12000)
     for i in range(n):
         s = HandshakeSettings()
         if i % 5:
@@ -254,10 +254,10 @@ def run(ctx):
     stream_sighashes(ctx)
     pending = []
     cases = PL.plan_signature_cases(thorough)
-    seeds = [ctx.seed * 1000 + 1] + ([ctx.seed * 1000 + 2, ctx.seed * 1000 + 3] if thorough else [])
+    seeds = [ctx.seed * 1000 + 1] + ([ctx.seed * 1000 + i for i in range(2, 9)] if thorough else [])
     for sd in seeds:
         for case in cases:
-            if sd != seeds[0] and case.get("form") not in ("bitflip",):
+            if sd != seeds[0] and case.get("form") not in ("bitflip",) and case.get("msg") != "replay":
                 continue        # further seeds only change random bit positions
             run_site_case(ctx, dict(case), sd, pending)
         flush(ctx, pending)
